@@ -86,7 +86,12 @@ func genROM(seed int64) []byte {
 			emit(0x10, 0x00)
 			stopAt = -1
 		}
-		switch rng.Intn(17) {
+		switch rng.Intn(18) {
+		case 17:
+			// channel 1 with a random sweep setting, triggered; NR10 and NR52 as the program sees them go to work RAM
+			a := 0xc000 + rng.Intn(0x1e00)
+			emit(0x3e, rng.Intn(128), 0xe0, 0x10, 0x3e, 0xf0|rng.Intn(8), 0xe0, 0x12, 0x3e, rng.Intn(256), 0xe0, 0x13, 0x3e, 0x80|rng.Intn(8), 0xe0, 0x14)
+			emit(0xf0, []int{0x26, 0x10}[rng.Intn(2)], 0xea, a&0xff, a>>8)
 		case 16:
 			// CB-prefixed operations on (HL), BIT n,(HL) most of all
 			emit(0x21, rng.Intn(256), 0xc0+rng.Intn(0x1e), 0xcb, []int{0x46, 0x4e, 0x7e, 0x66, 0x86, 0xc6, 0x16, 0x36, 0x5e}[rng.Intn(9)])
@@ -116,6 +121,10 @@ func genROM(seed int64) []byte {
 				a := 0xa000 + rng.Intn(0x40)
 				d := 0xc000 + rng.Intn(0x1e00)
 				emit(0x3e, 0x0a, 0xea, 0x00, 0x00, 0xfa, a&0xff, a>>8, 0xea, d&0xff, d>>8, 0xe0, 0x01, 0x3e, rng.Intn(256), 0xea, a&0xff, a>>8)
+				if variant == 2 && rng.Intn(3) == 0 {
+					// the clock halted (or released again) through register 0C; everything else must go on regardless
+					emit(0x3e, 0x0c, 0xea, 0x00, 0x40, 0x3e, []int{0x40, 0x40, 0x00}[rng.Intn(3)], 0xea, 0x00, 0xa0, 0xaf, 0xea, 0x00, 0x40)
+				}
 				if variant == 2 && rng.Intn(2) == 0 {
 					// clock: select a register, latch, read, store; then back to RAM bank 0
 					emit(0x3e, 0x08+rng.Intn(5), 0xea, 0x00, 0x40, 0xaf, 0xea, 0x00, 0x60, 0x3c, 0xea, 0x00, 0x60, 0xfa, 0x00, 0xa0, 0xea, d&0xff, d>>8, 0xaf, 0xea, 0x00, 0x40)
@@ -309,6 +318,11 @@ func runRun(id, rom string, mode string, at int, audio bool) *trace.Scenario {
 	sc := &trace.Scenario{ID: id, Reset: []any{"run", rom, mode, at, trace.B2I(audio)}}
 	perr := machine.Try(func() {
 		ctx, cancel := context.WithCancel(context.Background())
+		if mode == "deadline" {
+			// the context ends because its deadline passes: that is a cancellation too
+			cancel()
+			ctx, cancel = context.WithTimeout(context.Background(), time.Duration(at)*4*time.Millisecond)
+		}
 		defer cancel()
 		requested := false
 		display.VerifCloseAfter = 0
@@ -320,6 +334,10 @@ func runRun(id, rom string, mode string, at int, audio bool) *trace.Scenario {
 			if mode == "cancel" && int(n) == at && !requested {
 				requested = true
 				cancel()
+				sc.Ev = append(sc.Ev, []any{"req"})
+			}
+			if mode == "deadline" && ctx.Err() != nil && !requested {
+				requested = true
 				sc.Ev = append(sc.Ev, []any{"req"})
 			}
 			if mode == "close" && int(n) == at && !requested {
@@ -337,6 +355,10 @@ func runRun(id, rom string, mode string, at int, audio bool) *trace.Scenario {
 			sc.Ev = append(sc.Ev, []any{"hang", "Run did not return within 60 s of emulation after the stop request"})
 			cancel()
 			return
+		}
+		if mode == "deadline" && !requested && ctx.Err() != nil {
+			// the deadline passed between the last frame callback and Run's own check
+			sc.Ev = append(sc.Ev, []any{"req"})
 		}
 		d := gb.VerifDisplay()
 		spk := 0
@@ -423,7 +445,7 @@ func systemMain(c *Ctx) {
 		// generated ROMs of all four variants (the fourth keeps the LCD off) and two test ROMs
 		roms := []string{all[0], all[6], all[1], all[2], all[6], all[3], all[4], all[6]}
 		for i := 0; i < n; i++ {
-			mode := []string{"cancel", "close"}[i%2]
+			mode := []string{"cancel", "close", "deadline", "cancel", "close"}[i%5]
 			w.Put(runRun(fmt.Sprintf("system-run-%d", i), roms[i%len(roms)], mode, 1+rng.Intn(12), i%4 < 2))
 		}
 	}
